@@ -544,13 +544,13 @@ StBody ==       \* match.run: converter error, or the body with its outcome
              ELSE IF IsNest(o) THEN      \* the body calls context.execute_steps(): continues in the nested phase
                 U(<<rt, shouldSkip, stepst>>)
              ELSE
-                /\ rt' = [rt EXCEPT !.aborted = @ \/ o = "kbd"]
+                /\ rt' = [rt EXCEPT !.aborted = @ \/ o \in {"kbd", "abort"}]        \* ("abort": the body calls context.abort() and passes)
                 \* "skip": the body calls scenario.skip(); "skip_fail": it does so and then fails an assertion (the step has failed)
                 /\ shouldSkip' = IF o \in {"skip", "skip_fail"} THEN [shouldSkip EXCEPT ![el] = TRUE] ELSE shouldSkip
                 /\ stepst' = IF o \in {"skip", "skip_fail"}
                              THEN [stepst EXCEPT ![el] = [j \in DOMAIN stepst[el] |-> IF j = k /\ o = "skip_fail" THEN "failed"
                                                                                      ELSE IF stepst[el][j] \in {"untested", "skipped"} THEN "skipped" ELSE stepst[el][j]]]
-                             ELSE [stepst EXCEPT ![el][k] = CASE o = "pass" -> "passed" [] o = "fail" -> "failed" [] o \in {"error", "kbd"} -> "error"
+                             ELSE [stepst EXCEPT ![el][k] = CASE o \in {"pass", "abort"} -> "passed" [] o = "fail" -> "failed" [] o \in {"error", "kbd"} -> "error"
                                                                 [] o = "pending" -> (IF Wip(el) THEN "pending_warn" ELSE "pending")]
    /\ LET s == Steps(Top.el)[Top.i]
           o == IF Top.att = 1 THEN s.o ELSE s.o2
